@@ -35,7 +35,7 @@ vars == <<R, up, ml, linked, pool, G, phase, ops, spur, last, obs, M>>
 Nodes == Names
 
 \* LocalState of a replica as the push/pull record of SerfHandlers!Merge
-PPOf(r) == [ lt  |-> r.clock,
+PPOf(r) == [ lt  |-> r.clock, lo |-> r.leftL,
              ent |-> [x \in Names |-> [ p    |-> IF r.mem[x].st # 0 THEN 1 ELSE 0,
                                         lt   |-> IF r.mem[x].st # 0 THEN r.mem[x].lt ELSE 0,
                                         left |-> IF \E i \in DOMAIN r.leftL : r.leftL[i] = x THEN 1 ELSE 0 ]] ]
@@ -225,15 +225,29 @@ OpCrash(n) ==            \* process death, or Shutdown (with or without a comple
 \* Serf.Join of n to m (both running, memberlists not yet connected): memberlist exchanges state both
 \* ways (each side sends its pre-merge state; memberlist reports the new node before serf merges the
 \* user state), then n broadcasts its join intent.
+JoinEffect(RR, n, m, act, upx, mlx) ==
+  LET jn == Then(HNodeJoin(RR[n], m), Merge(HNodeJoin(RR[n], m).r, PPOf(RR[m])))
+      jm == RunRefutes(Then(HNodeJoin(RR[m], n), Merge(HNodeJoin(RR[m], n).r, PPOf(RR[n]))))
+      rn == RunRefutes(Then(jn, BroadcastJoin(jn.r, jn.r.clock)))
+      grp == linked[n] \cup linked[m] \cup {n, m}
+  IN  Publish([RR EXCEPT ![n] = rn.r, ![m] = jm.r], rn.q \o jm.q, act,
+              upx, [mlx EXCEPT ![n] = @ \cup {m}, ![m] = @ \cup {n}],
+              [x \in Nodes |-> IF x \in grp THEN grp \ {x} ELSE linked[x]], TRUE, spur)
 OpJoin(n, m) ==
-  /\ ~Formed /\ n # m /\ up[n] /\ up[m] /\ R[n].sstate = 0 /\ R[m].sstate = 0 /\ m \notin linked[n]
-  /\ LET jn == Then(HNodeJoin(R[n], m), Merge(HNodeJoin(R[n], m).r, PPOf(R[m])))
-         jm == RunRefutes(Then(HNodeJoin(R[m], n), Merge(HNodeJoin(R[m], n).r, PPOf(R[n]))))
-         rn == RunRefutes(Then(jn, BroadcastJoin(jn.r, jn.r.clock)))
-         grp == linked[n] \cup linked[m] \cup {n, m}
-     IN  Publish([R EXCEPT ![n] = rn.r, ![m] = jm.r], rn.q \o jm.q, [a |-> "join", n |-> n, m |-> m],
-                 up, [ml EXCEPT ![n] = @ \cup {m}, ![m] = @ \cup {n}],
-                 [x \in Nodes |-> IF x \in grp THEN grp \ {x} ELSE linked[x]], TRUE, spur)
+  /\ n # m /\ up[n] /\ up[m] /\ R[n].sstate = 0 /\ R[m].sstate = 0 /\ m \notin linked[n]
+  /\ JoinEffect(R, n, m, [a |-> "join", n |-> n, m |-> m], up, ml)
+
+\* A node that went down (crash, or shutdown after a leave) is started again under the same name and address
+\* with empty state (no snapshot: its Lamport clock starts over) and joins a running peer at once, as an agent
+\* configured with a join address does.  Its old peers keep what they knew until then.
+OpRejoin(n, m) ==
+  /\ n # m /\ ~up[n] /\ up[m] /\ R[m].sstate = 0
+  \* only after a plain crash: without a snapshot the restarted node's Lamport clock starts over, so leave or
+  \* force-leave claims about its previous life (times it can now reuse) may legitimately still apply to it;
+  \* that is what snapshots are for (C10, C13, C14)
+  /\ G[n].leave = -1 /\ G[n].sil = -1
+  /\ JoinEffect([R EXCEPT ![n] = NewReplica(n)], n, m, [a |-> "rejoin", n |-> n, m |-> m],
+                [up EXCEPT ![n] = TRUE], [ml EXCEPT ![n] = {}])
 
 BeginSync ==
   /\ phase = "run" /\ phase' = "sync"
@@ -294,6 +308,7 @@ RunOps ==
   /\ \/ \E n, x \in Nodes, prune \in {0, 1} : OpForceLeave(n, x, prune)
      \/ \E n \in Nodes : OpLeaveA(n) \/ OpLeave(n) \/ OpCrash(n)
      \/ \E n, m \in Nodes : OpJoin(n, m)
+     \/ \E n, m \in Nodes : OpRejoin(n, m)
 
 Next ==
   \/ RunOps
